@@ -26,6 +26,7 @@ func runC19(c *core.Ctx) {
 	c.Clause("C19.3 configuration bookkeeping")
 	h.adoptAndRevert("C19.3a adopt-revert")
 	h.commitConfigTied("C19.3b commit-config")
+	h.configSetters("C19.3c config-setters")
 	h.servePrologue("C19.4 serve-prologue")
 }
 
@@ -39,4 +40,5 @@ func runC20(c *core.Ctx) {
 	c.Clause("C20.3 storage exclusivity and write-once identity")
 	h.storageExclusivity("C20.3 storage")
 	h.termVoteWriters("C20.3b value-writers")
+	h.openStorageLoads("C20.4 restart-loads", "identity")
 }
